@@ -21,6 +21,15 @@
 //	pb <sess> <hex>                              protobuf ClientMsg (gRPC path)
 //	ak <hex>                                     checkAPIKey(string)
 //	probe                                        the bystander must still be served
+//	clog <sess>                                  SLOW CONSUMER: the connection stops reading (the drain loop of that
+//	                                             session is stopped through its own stop channel) and its send buffer is
+//	                                             filled to capacity with dummy frames: every Session.queueOut on it takes
+//	                                             the `default:` branch, so the next broadcast that selects it runs the real
+//	                                             "connection stuck, detaching" path of Topic.broadcastToSessions ->
+//	                                             unregisterSession(init=false).  The session keeps SENDING requests.
+//	unclog <sess>                                the dummies are thrown away, the drain loop is restarted
+//
+// Sessions slow (second connection of the peer user) and slow2 (third connection of the first user) exist for this.
 //
 // Output (VERIF_OUT): "begin <n>" before, "r <n> ..." after every item.
 package main
@@ -36,6 +45,7 @@ import (
 	"os"
 	"regexp"
 	"runtime/debug"
+	"sort"
 	"strconv"
 	"strings"
 	"testing"
@@ -105,6 +115,101 @@ type vfPop struct {
 	sess  map[string]*vSess
 	names map[string]string // placeholder -> actual name
 	uids  map[string]types.Uid
+	// sessions whose connection is stuck (send buffer full, nobody reads): name -> true
+	clogged map[string]bool
+}
+
+// the connection stops reading: stop the driver's drain loop (through the session's own stop channel, as
+// zz_verif_c02_test.go does) and fill the send buffer to capacity
+func (p *vfPop) clog(sn string) string {
+	vs := p.sess[sn]
+	if vs == nil {
+		return "nosuch"
+	}
+	if p.clogged[sn] {
+		return "already"
+	}
+	select {
+	case <-vs.done:
+		return "dead"
+	default:
+	}
+	vs.s.stop <- nil
+	<-vs.done
+	for {
+		select {
+		case vs.s.send <- []byte{0x30}:
+			continue
+		default:
+		}
+		break
+	}
+	p.clogged[sn] = true
+	return "ok"
+}
+
+// the connection reads again: whatever is in the buffer is thrown away (a frame other than a dummy cannot be
+// there: the buffer was full all the time), the drain loop restarts (and leaves at once if the server has
+// stopped the session meanwhile)
+func (p *vfPop) unclog(sn string) string {
+	vs := p.sess[sn]
+	if vs == nil || !p.clogged[sn] {
+		return "notclogged"
+	}
+	leak := 0
+	for len(vs.s.send) > 0 {
+		if m, ok := <-vs.s.send; ok {
+			if _, dummy := m.([]byte); !dummy {
+				leak++
+			}
+		}
+	}
+	vs.done = make(chan bool)
+	go vs.loop()
+	delete(p.clogged, sn)
+	if leak > 0 {
+		return "CLOGLEAK" + strconv.Itoa(leak)
+	}
+	return "ok"
+}
+
+// topic attachments held by the stuck connections
+func (p *vfPop) cloggedSubs() map[string]bool {
+	res := map[string]bool{}
+	for sn := range p.clogged {
+		s := p.sess[sn].s
+		s.subsLock.RLock()
+		for name := range s.subs {
+			res[sn+" "+name] = true
+		}
+		s.subsLock.RUnlock()
+	}
+	return res
+}
+
+// the attachments lost, as the sorted list of topic categories (me fnd p2p grp), "-" when none
+func vfLost(before, after map[string]bool) string {
+	var res []string
+	for k := range before {
+		if !after[k] {
+			name := k[strings.Index(k, " ")+1:]
+			c := "other"
+			if len(name) >= 3 {
+				switch name[:3] {
+				case "usr":
+					c = "me"
+				case "fnd", "p2p", "grp", "sys":
+					c = name[:3]
+				}
+			}
+			res = append(res, c)
+		}
+	}
+	if len(res) == 0 {
+		return "-"
+	}
+	sort.Strings(res)
+	return strings.Join(res, "+")
 }
 
 var vfPlace = regexp.MustCompile(`@[A-Z][A-Z0-9]@`)
@@ -158,7 +263,7 @@ func vfCtrlTopic(fr []*ServerComMessage) string {
 }
 
 func vfSetup(t *testing.T) *vfPop {
-	p := &vfPop{sess: map[string]*vSess{}, names: map[string]string{}, uids: map[string]types.Uid{}}
+	p := &vfPop{sess: map[string]*vSess{}, names: map[string]string{}, uids: map[string]types.Uid{}, clogged: map[string]bool{}}
 	for i, lvl := range []auth.Level{auth.LevelAuth, auth.LevelAuth, auth.LevelRoot, auth.LevelAuth, auth.LevelAuth} {
 		u := &types.User{}
 		u.Access.Auth = types.ModeCAuth
@@ -199,6 +304,8 @@ func vfSetup(t *testing.T) *vfPop {
 	mk("peer", "U2", auth.LevelAuth)         // the other member
 	mk("root", "U3", auth.LevelRoot)
 	mk("by", "U4", auth.LevelAuth) // bystander, never addressed by the generators
+	mk("slow", "U2", auth.LevelAuth)  // slow consumers: connections that can be made to stop reading (clog / unclog)
+	mk("slow2", "U1", auth.LevelAuth)
 	p.sess["hi"].s.userAgent = "fuzz/1.0"
 	p.sess["att"].s.userAgent = "fuzz/1.0"
 
@@ -234,6 +341,32 @@ func vfSetup(t *testing.T) *vfPop {
 	globals.hub.unreg <- &topicUnreg{rcptTo: g2}
 	vfQuiet()
 	p.names["@GO@"] = g2
+	// the slow consumers are attached wherever a broadcast can reach them: me (pres), the group (data, info, pres),
+	// the channel as a reader / as the owner, the p2p topic
+	// (one quiescence wait for all of them: a session's next {sub} waits in inflightReqs.Add for the previous one)
+	for _, m := range []string{"me", "@GG@", "@U1@", "@CC@"} {
+		p.sess["slow"].s.dispatchRaw(p.subst([]byte(`{"sub":{"id":"s20","topic":"` + m + `"}}`)))
+	}
+	for _, m := range []string{"me", "@GG@", "@GC@", "@U2@"} {
+		p.sess["slow2"].s.dispatchRaw(p.subst([]byte(`{"sub":{"id":"s21","topic":"` + m + `"}}`)))
+	}
+	if h := vfQuiet(); h != "" {
+		t.Fatal("population setup: ", h, " after the slow consumers attach")
+	}
+	for _, sn := range []string{"slow", "slow2"} {
+		ok := 0
+		for _, f := range p.sess[sn].take() {
+			if f.Ctrl != nil && f.Ctrl.Code >= 300 {
+				t.Fatalf("population setup: %s -> ctrl %d %s", sn, f.Ctrl.Code, f.Ctrl.Text)
+			}
+			if f.Ctrl != nil && f.Ctrl.Code == 200 {
+				ok++
+			}
+		}
+		if ok != 4 || p.sess[sn].s.countSub() != 4 {
+			t.Fatalf("population setup: %s attached to %d topics (%d replies)", sn, p.sess[sn].s.countSub(), ok)
+		}
+	}
 	for _, vs := range p.sess {
 		vs.take()
 	}
@@ -241,10 +374,20 @@ func vfSetup(t *testing.T) *vfPop {
 }
 
 func (p *vfPop) teardown() {
-	for _, vs := range p.sess {
+	for sn, vs := range p.sess {
+		// the drain loop is stopped FIRST (a stuck connection has none): Session.purgeChannels
+		// (`for len(s.send) > 0 { <-s.send }`) must not compete with it for the last queued frame
+		if !p.clogged[sn] {
+			select {
+			case <-vs.done:
+			default:
+				vs.s.stop <- nil
+				<-vs.done
+			}
+		}
+		delete(p.clogged, sn)
 		globals.sessionStore.Delete(vs.s)
 		vs.s.cleanUp(true)
-		<-vs.done
 	}
 	vfQuiet()
 	for _, name := range vfAllTopics() {
@@ -649,6 +792,19 @@ func TestVerifFuzz(t *testing.T) {
 			n++
 			emit("begin %d", n)
 			emit("r %d probe %s", n, probe())
+		case "clog", "unclog":
+			n++
+			emit("begin %d", n)
+			res := ""
+			if w[0] == "clog" {
+				res = pop.clog(w[1])
+			} else {
+				res = pop.unclog(w[1])
+				if h := vfQuiet(); h != "" {
+					res = strings.ReplaceAll(h, " ", "_")
+				}
+			}
+			emit("r %d %s %s %s", n, w[0], w[1], res)
 		case "ak":
 			n++
 			emit("begin %d", n)
@@ -669,12 +825,14 @@ func TestVerifFuzz(t *testing.T) {
 			}
 			raw := pop.subst(vUnhex(w[2]))
 			dead := false
-			select {
-			case <-vs.done:
-				// the server has stopped this session (evicted / own account deleted): in production the
-				// socket is closed by the write loop, nothing more can arrive on it
-				dead = true
-			default:
+			if !pop.clogged[w[1]] {
+				select {
+				case <-vs.done:
+					// the server has stopped this session (evicted / own account deleted): in production the
+					// socket is closed by the write loop, nothing more can arrive on it
+					dead = true
+				default:
+				}
 			}
 			if dead {
 				emit("r %d %s dec=dead id=- topic=- st=- res=ok term=1 frames=- others=0", n, w[1])
@@ -686,6 +844,9 @@ func TestVerifFuzz(t *testing.T) {
 			var dec, id, topic string
 			var r vfResult
 			pre := ""
+			// cl: the requesting connection is stuck (its replies cannot be queued, nothing is observed on it);
+			// ev: attachments the stuck connections lose while this input is handled (slow-consumer evictions)
+			cl, subs0 := vB2s(pop.clogged[w[1]]), pop.cloggedSubs()
 			if w[0] == "in" {
 				dec, id, topic = vfDecode(raw)
 				pre = vfPre(vs.s, topic, vfSubUser(raw))
@@ -736,8 +897,8 @@ func TestVerifFuzz(t *testing.T) {
 			if vs.s.terminating > 0 {
 				term = "1"
 			}
-			emit("r %d %s dec=%s id=%s topic=%s st=%s res=%s term=%s frames=%s others=%d", n, w[1], dec, vfHexS(id), vfHexS(topic), pre, res, term,
-				vfFrames(fr, rawb), others)
+			emit("r %d %s dec=%s id=%s topic=%s st=%s res=%s term=%s frames=%s others=%d cl=%s ev=%s", n, w[1], dec, vfHexS(id), vfHexS(topic), pre, res, term,
+				vfFrames(fr, rawb), others, cl, vfLost(subs0, pop.cloggedSubs()))
 			if r.panicMsg != "" {
 				// in production the process is gone; start over so that later inputs see a sane server
 				emit("r %d probe %s", n, probe())
